@@ -16,7 +16,10 @@ DEFAULT = {"KBool": "onoff", "KNumeric": "-", "KText": "text"}
 SAFE_OPS = ["copy", "rows", "cols", "take", "reindex", "sort_index", "astype", "fillna", "replace", "assign", "drop",
             "concat", "merge", "concat_conflict", "describe", "pivot", "T", "dropna",
             # arithmetic with an operand that is not a table: outside the safe list, the unit of the result is unknown
-            "pow", "rdiv", "mul_array", "div_series"]
+            "pow", "rdiv", "mul_array", "div_series",
+            # merge on a shared key column whose unit differs between the frames, with and without the row-origin indicator
+            "merge_key_conflict", "merge_key_conflict_indicator"]
+KEYCONF = ("merge_key_conflict", "merge_key_conflict_indicator")
 ARITH = ("pow", "rdiv", "mul_array", "div_series")
 MUTS = ["unit", "dest", "name", "delcol", "addcol"]
 
@@ -146,9 +149,11 @@ class Program:
                     if len(cols) < 2:
                         return
                     res = a.drop(columns=[cols[-1]])
-                elif name in ("concat", "concat_conflict"):
+                elif name in ("concat", "concat_conflict") + KEYCONF:
                     other = b
-                    if name == "concat_conflict":
+                    if name in KEYCONF and not any(a[c].dtype.kind in "if" for c in cols):
+                        return
+                    if name == "concat_conflict" or name in KEYCONF:
                         from pdtable import Table
 
                         from pdtable.table_origin import NullLocationFile, TableOrigin
@@ -162,7 +167,11 @@ class Program:
                         del F.FIN_LOG[:]
                         self.prog.append((["ANew", self.key(other), "conflict", ["all"],
                                            [[u[0], u[1]] for u in view(other)["units"]], 999], [False, self.views()]))
-                    res = pd.concat([a, other], ignore_index=True)
+                    if name in KEYCONF:
+                        key_col = next(c for c in cols if a[c].dtype.kind in "if")
+                        res = a.merge(other, on=key_col, suffixes=("", "_r"), **({"indicator": True} if name.endswith("indicator") else {}))
+                    else:
+                        res = pd.concat([a, other], ignore_index=True)
                 elif name == "merge":
                     res = a.merge(b, left_index=True, right_index=True, suffixes=("", "_r"))
                 elif name == "describe":
@@ -433,6 +442,14 @@ class C05(Prop):
                 if rec["conflict_possible"] and rec["exc"] != "InvalidTableCombineError":
                     fails.append(f"refuse: concat of frames with conflicting units gave {rec['exc'] or 'a result'}")
                 continue
+            if op in KEYCONF:
+                # refused, or a plain DataFrame with a warning: never a table that labels the key with one of the two units
+                if rec["exc"] is None and rec["is_table"]:
+                    fails.append(f"refuse-{op}: merge on a key column whose unit differs between the frames gave a table "
+                                 f"(key labelled {dict(rec['result_view']['units'])})"[:160].split(" (key")[0])
+                elif rec["exc"] is None and not rec["warned"]:
+                    fails.append(f"refuse-{op}: merge on a key column whose unit differs gave a plain frame without a warning")
+                continue
             if rec["exc"]:
                 unrepresentable = (rec.get("plain") or "").startswith("raised:") or \
                     (rec["exc"] == "InvalidNamingError" and rec.get("plain") == "duplicate-labels")
@@ -476,7 +493,22 @@ class C05(Prop):
                     fails.append(f"units: column {c!r} of the result of {op} has unit {have!r}, expected {want!r}")
         return fails
 
+    def corpus(self):
+        # the recorded finding, reproduced on every run: a merge on a key whose unit differs, with the row-origin indicator
+        tab = {"name": "t0", "dests": ["all"], "nrows": 2,
+               "cols": [{"name": "a", "kind": "float", "unit": "m"}, {"name": "b", "kind": "float", "unit": "kg"}]}
+        return [{"tables": [tab], "vseed": 11, "ops": [{"t": "pandas", "op": "merge_key_conflict", "a": 0, "b": 0, "k": 0},
+                                                       {"t": "pandas", "op": "merge_key_conflict_indicator", "a": 0, "b": 0, "k": 0},
+                                                       {"t": "mutate", "m": "unit", "a": 0, "k": 0}]}]
+
+    def finding_key(self, case, obs, failure):
+        if failure.startswith("refuse-merge_key_conflict_indicator:"):
+            return "C05:merge-indicator-key-unit-conflict"
+        return None
+
     def to_coq(self, case, obs):
+        if any(r.get("op") in KEYCONF for r in obs.get("oracle", [])):
+            return None     # pandas drops the right frame's key column before pdtable is told of the merge: not in the model
         items = []
         for a, (refused, views) in obs["prog"]:
             vs = g_list([g_pair(g_pair(g_nat(int(k)), g_list([g_pair(g_str(x), g_str(y)) for x, y in v.get("cols", [])])), g_view(v))
